@@ -5,9 +5,11 @@ Cases
   box    : states (w, h, dwt_depth, dwt_depth_ho, slices_x, slices_y), w,h in 1..24, depths 0..3 x 0..3,
            slices 1..8 x 1..8 (luma = (w,h); colour-difference size and slice_bytes fraction derived
            from the indices).  Every function is called for every component, every level
-           0..dh+d+1 and every slice index; Coq recomputes the same list and compares an
-           order-sensitive checksum (mismatching states are re-run with the full lists).
-           quick: a random 1/16 of the box; thorough: the whole box.
+           0..dh+d+1 and every slice index; Coq enumerates the same states from the indices
+           (number literals are what costs time in coqc), recomputes the same lists and compares an
+           order-sensitive checksum per (w,h,d,dh) group of 64 slice counts (states of mismatching
+           groups are re-run one by one, then with the full lists).
+           quick: a random 1/16 of the (w,h,d,dh) groups; thorough: the whole box.
   full   : random states from a wider box (sizes 0..40, depths 0..4, slices 1..10) compared value by value.
   point  : single calls with values up to 2^40 and malformed inputs (zero/negative slice counts,
            depths, denominators, levels outside the range): value or "raised" must agree with f / f_dom.
@@ -21,7 +23,8 @@ import multiprocessing
 from vlib import cz, clist, copt
 
 COMPS = ["Y", "C1", "C2"]
-HASH_MOD = (1 << 61) - 1
+HASH_MASK = (1 << 61) - 1
+NMAX = 8  # slice counts 1..NMAX in each direction
 
 
 def impl():
@@ -45,7 +48,7 @@ def cstate(t):
 def hash_obs(obs):
     h = 7
     for v in obs:
-        h = (h * 1000003 + v + 1) % HASH_MOD
+        h = (h * 1000003 + v + 1) & HASH_MASK
     return h
 
 
@@ -361,29 +364,48 @@ def run(ctx):
         ctx.note("corpus not read: %r" % (e,))
 
     # ---- box ----------------------------------------------------------------------------------
-    box = [(w, h, d, dh, nx, ny) for w in range(1, 25) for h in range(1, 25) for d in range(4) for dh in range(4)
-           for nx in range(1, 9) for ny in range(1, 9)]
+    # a group = (w, h, d, dh) with all NMAX^2 slice counts; Coq enumerates the same states from the indices
+    groups = [(w, h, d, dh) for w in range(1, 25) for h in range(1, 25) for d in range(4) for dh in range(4)]
     if ctx.quick:
-        box = [box[i] for i in sorted(rng.sample(range(len(box)), len(box) // 16))]
+        groups = [groups[i] for i in sorted(rng.sample(range(len(groups)), len(groups) // 16))]
     else:
         ctx.exhaustive = True
+    box = [g + (nx, ny) for g in groups for nx in range(1, NMAX + 1) for ny in range(1, NMAX + 1)]
     # edge states of the property's domain: zero sizes, many more slices than coefficients
     edge = [(w, h, cw, ch, d, dh, nx, ny, 3, 2) for w in (0, 1, 2) for h in (0, 1, 3) for (cw, ch) in ((0, 0), (1, 2))
             for d in (0, 1, 2) for dh in (0, 1, 2) for (nx, ny) in ((1, 1), (3, 2), (9, 7))]
-    states = [t for t in corpus if is_good(t) and t[6] * t[7] <= 4096 and t[4] + t[5] <= 12] + edge + [box_state(*b) for b in box]
+    corpus = [t for t in corpus if is_good(t) and t[6] * t[7] <= 4096 and t[4] + t[5] <= 12]
+    extra_states = corpus + edge
+    states = extra_states + [box_state(*b) for b in box]
     results = run_states(states)
-    cases = []
     for t, (h, nt, viols) in zip(states, results):
         ctx.count(1, key=t if nt else None, bucket="depth_sum=%d" % (t[4] + t[5]))
         report(ctx, t, viols)
-        cases.append("(%s, %s)" % (cstate(t), cz(h if h is not None else -1)))
-    ctx.sample({"state(lw,lh,cw,ch,d,dh,nx,ny,num,den)": list(states[len(edge) + len(corpus)] if len(states) > len(edge) + len(corpus) else states[0])})
+    ctx.sample({"state(lw,lh,cw,ch,d,dh,nx,ny,num,den)": list(states[len(extra_states)])})
     ctx.sample({"state": list(states[-1])})
-    bad = ctx.coq_check_cases("box", IMPORTS, "chk_hash", cases, shard=ctx.pick(1200, 4000), timeout=1500)
-    relook = [states[i] for i in (bad or [])][:40]
+    per = NMAX * NMAX
+    box_res = results[len(extra_states):]
+    gcases = []
+    for gi, g in enumerate(groups):
+        hs = [r[0] if r[0] is not None else -1 for r in box_res[gi * per:(gi + 1) * per]]
+        gcases.append("(%s, %s, %s)" % (", ".join(cz(v) for v in g), cz(NMAX), cz(hash_obs(hs))))
+    gbad = ctx.coq_check_cases("box", IMPORTS, "chk_group", gcases, shard=ctx.pick(36, 64), timeout=1500)
+    ctx.corr_cases += len(box) - len(groups)  # every state of a group is one validated observation
+    # corpus + edge states, and the states of (a few) mismatching groups, one checksum per state
+    sub = list(range(len(extra_states)))
+    for gi in (gbad or [])[:6]:
+        sub.extend(range(len(extra_states) + gi * per, len(extra_states) + (gi + 1) * per))
+    cases = ["(%s, %s)" % (cstate(states[i]), cz(results[i][0] if results[i][0] is not None else -1)) for i in sub]
+    bad = ctx.coq_check_cases("states", IMPORTS, "chk_hash", cases, shard=60, timeout=1500)
+    bad = [sub[i] for i in (bad or [])]
+    relook = [states[i] for i in bad][:12]
+    if gbad:
+        ctx.obligation("corr:slice_sizes box agrees with implementation", False, "corr-shard",
+                       "model/implementation differ in %d groups (w,h,d,dh), e.g. %r; states %r" % (
+                           len(gbad), [groups[i] for i in gbad[:5]], [list(t) for t in relook[:3]]))
 
     # ---- full (value by value) ------------------------------------------------------------------
-    nfull = ctx.pick(320, 3000)
+    nfull = ctx.pick(48, 600)
     full_states = list(relook)
     for _ in range(nfull):
         full_states.append((rng.randrange(0, 41), rng.randrange(0, 41), rng.randrange(0, 41), rng.randrange(0, 41),
@@ -401,14 +423,14 @@ def run(ctx):
             ctx.count(1, key=t if nontrivial(t, data) else None, bucket="full")
         fobs.append(flat)
         fcases.append("(%s, %s)" % (cstate(t), clist(flat)))
-    fbad = ctx.coq_check_cases("full", IMPORTS, "chk_full", fcases, shard=40, timeout=1500)
+    fbad = ctx.coq_check_cases("full", IMPORTS, "chk_full", fcases, shard=ctx.pick(4, 12), timeout=1500)
     if bad or fbad:
         which = [list(states[i]) for i in (bad or [])][:5] + [list(full_states[i]) for i in (fbad or [])][:5]
         ctx.obligation("corr:slice_sizes agrees with implementation", False, "corr-shard",
-                       "model/implementation differ (%d box states, %d full states), e.g. %r" % (len(bad or []), len(fbad or []), which))
+                       "model/implementation differ (%d corpus/edge/box states, %d full states), e.g. %r" % (len(bad or []), len(fbad or []), which))
 
     # ---- point cases: big values and malformed inputs ---------------------------------------------------
-    npoint = ctx.pick(3000, 40000)
+    npoint = ctx.pick(1500, 20000)
     pcases, pmeta = [], []
 
     def big():
@@ -439,7 +461,7 @@ def run(ctx):
                   bucket=bucket + ("-raises" if raised else ""))
     ctx.sample({"point": [list(pmeta[0][0])] + list(pmeta[0][1:])})
     ctx.sample({"point": [list(pmeta[2][0])] + list(pmeta[2][1:])})
-    pbad = ctx.coq_check_cases("point", IMPORTS, "chk_point", pcases, shard=500, timeout=1500)
+    pbad = ctx.coq_check_cases("point", IMPORTS, "chk_point", pcases, shard=ctx.pick(100, 300), timeout=1500)
     if pbad:
         ctx.obligation("corr:slice_sizes single calls / exceptions agree with implementation", False, "corr-shard",
                        "model/implementation differ on %d point cases, e.g. %r" % (len(pbad), [pmeta[i] for i in pbad[:5]]))
